@@ -606,3 +606,48 @@ Proof. reflexivity. Qed.
 Theorem h_count_true_ok_iff args :
   (exists e, h_count_true args = Ok e) <-> forallb bool_item (flatten_nest (NL args)) = true.
 Proof. apply count_true_ok_iff. Qed.
+
+(* ------------------------------------- the aggregate methods of the array classes *)
+
+Theorem array_fold_or_sem k sh d en bs :
+  k = KB -> denote_bools en d bs ->
+  exists e, call_method (VA k sh d) m_fold_or [] = Ok (VE e) /\
+            ev en e = Some (VB (existsb (fun b => b) bs)).
+Proof.
+  intros K D. subst k. exists (BNode OR d). split; [destruct sh; reflexivity|apply eval_or; exact D].
+Qed.
+
+Theorem array_fold_and_sem k sh d en bs :
+  k = KB -> denote_bools en d bs ->
+  exists e, call_method (VA k sh d) m_fold_and [] = Ok (VE e) /\
+            ev en e = Some (VB (forallb (fun b => b) bs)).
+Proof.
+  intros K D. subst k. exists (BNode AND d). split; [destruct sh; reflexivity|apply eval_and; exact D].
+Qed.
+
+Theorem array_count_true_sem sh d en bs e :
+  call_method (VA KB sh d) m_count_true [] = Ok (VE e) -> denote_bools en d bs ->
+  ev en e = Some (VI (count_trues bs)).
+Proof.
+  intros H D.
+  assert (C : count_true d = Ok e).
+  { destruct sh; unfold call_method in H; simpl in H; destruct (count_true d); inversion H; reflexivity. }
+  eapply count_true_sem_list; eauto.
+Qed.
+
+Theorem array_alldifferent_sem sh d en zs :
+  denote_ints en d zs ->
+  exists e b, call_method (VA KI sh d) m_alldifferent [] = Ok (VE e) /\
+              ev en e = Some (VB b) /\ (b = true <-> NoDup zs).
+Proof.
+  intros D. exists (BNode ALLDIFF d), (distinct zs). split; [destruct sh; reflexivity|].
+  split; [|apply distinct_NoDup].
+  unfold ev; simpl. unfold denote_ints, ev in D. rewrite D.
+  unfold eval_bop. rewrite all_some_ints, as_ints_map. reflexivity.
+Qed.
+
+(* a Python literal operand denotes what the corresponding constant node denotes *)
+Theorem literal_is_constant en :
+  (forall b, ev en (PyBool b) = ev en (BNode BOOL_CONSTANT [PyBool b])) /\
+  (forall z, ev en (PyInt z) = ev en (INode INT_CONSTANT [PyInt z])).
+Proof. split; reflexivity. Qed.
